@@ -125,9 +125,13 @@ def aset_words(ctx):
                 b, sb = "%d %d aset %d %d aset add" % (lo, lo + 1, lo + 1, lo + l2), set(range(lo, lo + l2))
         checks = [("%s %s ?eq" % (a, b), sa == sb), ("%s %s ?ne" % (a, b), sa != sb),
                   ("%s %s ?overlaps" % (a, b), bool(sa & sb)), ("%s %s ?contains" % (a, b), sb <= sa),
-                  ("%s length" % a, len(sa)), ("[%s elem]" % a, sorted(sa)),
+                  ("%s length" % a, len(sa)), ("[%s elem]" % a, sorted(sa)), ("[%s relem]" % a, sorted(sa, reverse=True)),
+                  ("[%s elem pos]" % a, list(range(len(sa)))), ("[%s relem pos]" % a, list(range(len(sa)))),
+                  ("[%s range elem]" % a, sorted(sa)),             # `range` yields the runs one by one
+                  ("%s ?empty" % a, not sa), ("%s !empty" % a, bool(sa)),
+                  ("[[%s relem] relem]" % a, sorted(sa)), ("[%s elem] [%s relem] ?eq" % (a, a), len(sa) <= 1),
                   ("[%s (low, high)]" % a, [min(sa), max(sa) + 1] if sa else None)]
-        k = rng.sample(checks, 3)
+        k = rng.sample(checks, 5)
         for q, w in k:
             progs.append(q)
             want.append(w)
